@@ -344,3 +344,8 @@ m('c10-r5-sum-take-while', 'C10', 'C10-R5', 'sum:raw_strains', (
 
 # seed C11-3 itself: the unchecked NonZero helper reached without the clamp through Option::map
 m('c11-r6-helper-unclamped-caller', 'C11', 'C11-R6', 'f64_to_non_zero_u64', diff='selftest/seed_diffs/C11-3.diff')
+
+# the unsafe forwarder of agent refactor C11-r8, called without establishing the non-zero state first
+m('c11-r1-forwarder-without-retain', 'C11', 'C11-R1', 'difficulty_value', (
+    'src/any/difficulty/skills.rs', "    peaks.retain_non_zero_and_sort();", "    peaks.sort_desc();"),
+  diff='selftest/refactor_diffs/C11-r8.diff')
